@@ -206,3 +206,122 @@ Example C01_nested_nonvacuous :
   | _ => False
   end.
 Proof. vm_compute. repeat split. Qed.
+
+(* ---- environment channel: export NAME=value && ... (global_env) and NAME=value cmd (local_env) ---- *)
+From BFG Require Import Shell.PosixEnv Shell.PosixEnvProofs Make.MakeEnvProofs.
+
+(* R side: [sh_run] is the sh model WITH tilde expansion (at the start of a word, and after = and : in assignment words
+   and in the assignment arguments of export, HOME taken from the shell variables), assignment words, the export builtin
+   and the environment carried along an && list (Shell/Sh.v, second layer; validated against the real dash with a private
+   HOME on every run). W side: global_env / local_env / join_lines as in shell/posix.py, every item quoted by quote.
+
+   For every environment whose names are identifiers (other than OPTIND) and ALL values (every string: quotes, blanks,
+   tildes, colons, equals signs, dollars; no guard at all), every initial environment and every non-empty list of
+   commands whose command word does not read as an assignment and is not a shell builtin: the line written by
+   global_env runs exactly the commands, in order, each with exactly its declared words, in an environment that maps
+   every declared name to its declared value (the last declaration of a name wins) and every other name to the value
+   it had before; and the whole list runs. *)
+Theorem C01_env_global : forall uw env0 env cmds,
+  forallb name_ok (map fst env) = true -> cmds_ok uw cmds = true ->
+  exists penv,
+    sh_run uw env0 (sh_text uw (global_env env (map words_line cmds))) = Some (mkprocs penv cmds, true) /\
+    forall n, env_get penv n = match assoc_last env n with Some v => Some v | None => assoc_last env0 n end.
+Proof. exact env_global. Qed.
+Print Assumptions C01_env_global.
+
+(* the same for NAME=value ... cmd words *)
+Theorem C01_env_local : forall uw env0 env cmd,
+  forallb name_ok (map fst env) = true -> cmd_ok uw cmd = true ->
+  exists penv,
+    sh_run uw env0 (sh_text uw (local_env env (words_line cmd))) = Some (mkprocs penv [cmd], true) /\
+    forall n, env_get penv n = match assoc_last env n with Some v => Some v | None => assoc_last env0 n end.
+Proof. exact env_local. Qed.
+Print Assumptions C01_env_local.
+
+(* composed with the Make layer (channel R): the recipe line that write_shell writes for the items is handed by Make to
+   sh as the sh text of the items - the dollar doubling is undone for every value, and no recipe prefix is eaten: the
+   line starts with export or with an identifier; only without any environment word the command word must not start
+   with a recipe prefix character (the guard of C01_recipe) *)
+Theorem C01_env_through_make : forall uw us v env0 env cmds line,
+  forallb name_ok (map fst env) = true -> cmds_ok uw cmds = true ->
+  env_head_ok uw env (hd [] cmds) = true ->
+  write_recipe_line uw us (map item_frags (global_env env (map words_line cmds))) = Some line ->
+  exists penv,
+    run_recipe uw v env0 line = Some (mkprocs penv cmds, true) /\
+    forall n, env_get penv n = match assoc_last env n with Some x => Some x | None => assoc_last env0 n end.
+Proof. exact env_global_make. Qed.
+Print Assumptions C01_env_through_make.
+
+Theorem C01_env_local_through_make : forall uw us v env0 env cmd line,
+  forallb name_ok (map fst env) = true -> cmd_ok uw cmd = true ->
+  env_head_ok uw env cmd = true ->
+  write_recipe_line uw us (map item_frags (local_env env (words_line cmd))) = Some line ->
+  exists penv,
+    run_recipe uw v env0 line = Some (mkprocs penv [cmd], true) /\
+    forall n, env_get penv n = match assoc_last env n with Some x => Some x | None => assoc_last env0 n end.
+Proof. exact env_local_make. Qed.
+Print Assumptions C01_env_local_through_make.
+
+(* the reason no unquoted tilde ever reaches sh: quote leaves a word unquoted only if it has no character outside
+   the safe set, and the tilde is outside it; on such words tilde expansion is the identity *)
+Theorem C01_env_no_unquoted_tilde : forall uw home vt se ap s w,
+  wimg uw s w -> texp home vt se ap w = Some (fl (needs_quote uw s) s).
+Proof. exact texp_written. Qed.
+Print Assumptions C01_env_no_unquoted_tilde.
+
+Definition c01_nu : char -> bool := fun _ => false.
+Definition c01_env0 : list (str * str) := [(STR "HOME", STR "/h"); (STR "PATH", STR "/bin")].
+Definition c01_env : list (str * str) :=
+  [(STR "VAR", STR "~/x:~"); (STR "A_1", STR "it's a=b:~ $HOME ''"); (STR "x", []); (STR "P", STR "a:~/b"); (STR "VAR", STR "=~")].
+Definition c01_cmds : list (list str) := [[STR "cc"; STR "~"; STR "a b"; STR "X=~"]; [STR "ld"; STR "~/y"; []]].
+
+(* non-vacuity: values with tildes, colons, equals signs, quotes, blanks, dollars, an empty value, a name declared
+   twice; the guards hold and the run is computed *)
+Example C01_env_global_nonvacuous :
+  forallb name_ok (map fst c01_env) = true /\ cmds_ok c01_nu c01_cmds = true /\
+  match sh_run c01_nu c01_env0 (sh_text c01_nu (global_env c01_env (map words_line c01_cmds))) with
+  | Some ([p1; p2], true) =>
+    p_argv p1 = [STR "cc"; STR "~"; STR "a b"; STR "X=~"] /\ p_argv p2 = [STR "ld"; STR "~/y"; []] /\ p_env p1 = p_env p2 /\
+    env_get (p_env p1) (STR "VAR") = Some (STR "=~") /\ env_get (p_env p1) (STR "A_1") = Some (STR "it's a=b:~ $HOME ''") /\
+    env_get (p_env p1) (STR "x") = Some [] /\ env_get (p_env p1) (STR "P") = Some (STR "a:~/b") /\
+    env_get (p_env p1) (STR "HOME") = Some (STR "/h") /\ env_get (p_env p1) (STR "Q") = None
+  | _ => False
+  end.
+Proof. vm_compute. repeat split. Qed.
+
+Example C01_env_local_nonvacuous :
+  cmd_ok c01_nu (hd [] c01_cmds) = true /\
+  match sh_run c01_nu c01_env0 (sh_text c01_nu (local_env c01_env (words_line (hd [] c01_cmds)))) with
+  | Some ([p1], true) =>
+    p_argv p1 = [STR "cc"; STR "~"; STR "a b"; STR "X=~"] /\
+    env_get (p_env p1) (STR "VAR") = Some (STR "=~") /\ env_get (p_env p1) (STR "P") = Some (STR "a:~/b") /\
+    env_get (p_env p1) (STR "HOME") = Some (STR "/h")
+  | _ => False
+  end.
+Proof. vm_compute. repeat split. Qed.
+
+(* the R model is not blind to the tilde: the same values written WITHOUT quotes are expanded by sh_run exactly as dash
+   does (after = and : in the assignment argument of export and in a prefix assignment, at the start of an ordinary
+   word, not in X=~ as an ordinary argument), so the theorems above do say something *)
+Example C01_env_model_expands_tilde :
+  match sh_run c01_nu c01_env0 (STR "export P=a:~/b && VAR=~ cc ~ X=~ a:~ '~'") with
+  | Some ([p1], true) =>
+    p_argv p1 = [STR "cc"; STR "/h"; STR "X=~"; STR "a:~"; STR "~"] /\
+    env_get (p_env p1) (STR "P") = Some (STR "a:/h/b") /\ env_get (p_env p1) (STR "VAR") = Some (STR "/h")
+  | _ => False
+  end.
+Proof. vm_compute. repeat split. Qed.
+
+(* a name that is not an identifier is NOT delivered (candidate finding C01-env-name-not-identifier): with global_env
+   the shell stops at export (bad variable name) and nothing runs; with local_env the word NAME=value is taken for the
+   command *)
+Theorem C01_env_name_refuted : exists env cmd,
+  forallb (fun n => negb (mem_char c_eq n) && negb (mem_char 0%N n) && match n with [] => false | _ => true end) (map fst env) = true /\
+  cmd_ok c01_nu cmd = true /\
+  sh_run c01_nu c01_env0 (sh_text c01_nu (global_env env [words_line cmd])) = Some ([], false) /\
+  match sh_run c01_nu c01_env0 (sh_text c01_nu (local_env env (words_line cmd))) with
+  | Some ([p], true) => p_argv p = STR "1A=x" :: cmd
+  | _ => False
+  end.
+Proof. exists [(STR "1A", STR "x")], [STR "cc"; STR "-c"]. vm_compute. repeat split. Qed.
+Print Assumptions C01_env_name_refuted.
